@@ -162,7 +162,7 @@ def oracle_mux(c, sets):
     exacts, prefixes = {}, {}
     for op, ok in zip(c.get("ops") or [], o.get("oks") or []):
         if ok == 2:
-            return "registration panicked", {"op": op}
+            return "registration panicked", {"op": op, "class": "register"}
         s, f = op["s"], op["f"]
 
         def ex(s):
@@ -188,7 +188,7 @@ def oracle_mux(c, sets):
                 want = ex(t) and pre(t + "/")
         if want != (ok == 1):
             return ("registration %s(%r) reported %s" % (op["op"], s, "success" if ok else "a duplicate"),
-                    {"op": op})
+                    {"op": op, "class": "register"})
     for p, got in zip(paths_of(c, sets), o.get("routes") or []):
         if p in exacts:
             want = exacts[p]
@@ -206,11 +206,11 @@ def oracle_trie(c, sets):
     seen = set()
     for s, ok in zip(c.get("adds") or [], o.get("oks") or []):
         if ok == 2:
-            return "add panicked", {"s": s}
+            return "add panicked", {"s": s, "class": "register"}
         want = s != "" and s not in seen
         seen.add(s)
         if want != (ok == 1):
-            return "add(%r) returned %s" % (s, bool(ok)), {"s": s}
+            return "add(%r) returned %s" % (s, bool(ok)), {"s": s, "class": "register"}
     for p, f, b in zip(c.get("paths") or [], o.get("finds") or [], o.get("exacts") or []):
         w = longest(seen, p) or ""
         if f != w or b != (p == "" or p in seen):
@@ -226,13 +226,13 @@ def oracle_seg(c, sets):
         r, v = tuple(a["r"]), a["v"]
         if v == "":
             if ok != 2:
-                return "Add with an empty value did not panic", {"add": a}
+                return "Add with an empty value did not panic", {"add": a, "class": "register"}
             continue
         want = r not in table
         if want:
             table[r] = v
         if ok == 2 or want != (ok == 1):
-            return "Add(%r) returned %s" % (list(r), ok), {"add": a}
+            return "Add(%r) returned %s" % (list(r), ok), {"add": a, "class": "register"}
     for q, f in zip(queries_of(c, sets), o.get("sfinds") or []):
         q = tuple(q)
         n, v = 0, ""
@@ -275,7 +275,8 @@ def oracle_router(c, sets):
                     want = 1
                     r["nodes"][rt] = (op["op"] in ("dir", "dirsvc"), op_method(op), op["h"])
             if want != ok:
-                return "registering %r answered %d (1 ok, 0 duplicate, 2 panic), expected %d" % (op, ok, want), {"op": op}
+                return ("registering %r answered %d (1 ok, 0 duplicate, 2 panic), expected %d" % (op, ok, want),
+                        {"op": op, "class": "register"})
 
     def serve(i, rest, isdir, method, depth):
         if depth > 8:
@@ -333,12 +334,13 @@ def oracle_tiers(c, sets):
         t = e["t"]
         if not c.get("internal"):
             if t == "user" and e["u"] == "":
-                return "the user tier ran for an anonymous request", {"event": e}
+                return "the user tier ran for an anonymous request", {"event": e, "class": "user-tier-anonymous"}
             if t == "admin" and not is_admin(c, e["u"], e.get("l", 0)):
-                return "the admin tier ran for a non-admin request", {"event": e}
+                return "the admin tier ran for a non-admin request", {"event": e, "class": "admin-tier-nonadmin"}
         elif t in ("guest", "user", "admin"):
             if first_gated and not is_admin(c, e["u"], e.get("l", 0)):
-                return "ServeInternal ran the %s tier for a non-admin request" % t, {"event": e}
+                return ("ServeInternal ran the %s tier for a non-admin request" % t,
+                        {"event": e, "class": "internal-%s-tier-nonadmin" % t})
             first_gated = False
     return None
 
@@ -361,7 +363,7 @@ ORACLES = {"mux": oracle_mux, "trie": oracle_trie, "seg": oracle_seg, "router": 
 def impl_oracle(c, sets):
     o = c.get("obs") or {}
     if o.get("crash"):
-        return "the process died or hung: %s" % o["crash"][:200], {}
+        return "the process died or hung: %s" % o["crash"][:200], {"class": "crash"}
     return ORACLES[c["kind"]](c, sets)
 
 
@@ -492,6 +494,15 @@ HEADER = ("From Coq Require Import List NArith ZArith.\n"
 
 def replay(ck):
     """bin/check C20 --replay replays/C20/<hash>.json : re-run that one case."""
+    rc = replay1(ck)
+    if ck.saved_evidence is not None:          # a replay is not a run of the check: keep its evidence
+        open(os.path.join(vlib.ROOT, "evidence", "C20.json"), "w").write(ck.saved_evidence)
+    return rc
+
+
+def replay1(ck):
+    evp = os.path.join(vlib.ROOT, "evidence", "C20.json")
+    ck.saved_evidence = open(evp).read() if os.path.exists(evp) else None
     body = json.load(open(ck.replay))
     c = body.get("case")
     binp = ck.build_harness("c20")
@@ -562,8 +573,7 @@ def run(ck):
         if why:
             bad.add(i)
             what, detail = why
-            key = "impl:%s:%s" % (c["kind"], what.split("(")[0].split("%")[0][:40].strip()
-                                  if c["kind"] in ("tiers",) else c["kind"] + "-dispatch")
+            key = "impl:%s:%s" % (c["kind"], detail.get("class", "dispatch"))
             body = {"case": {k: v for k, v in c.items() if k != "obs"}, "detail": detail,
                     "expected": "dispatch to the exact / longest registered prefix and the permitted tier",
                     "observed": c.get("obs")}
